@@ -282,4 +282,12 @@ PROPS = {
         ["H-sha: sha256 collision-free; H-sig: ed25519 signatures verify only under the signing key on signed digests (premises of C04_vertex_fields_pinned / C04_trx_fields_pinned_partial)",
          "H-b58: base58 + 4-byte double-sha checksum decoding as implemented by mr-tron/base58 (re-implemented independently in the harness)"],
         ("Model/Msg.vo",)),
+    "C19": make_pure_check("C19", "codec",
+        "vertices/transactions over boundary values per field (lengths 0,1,31,32,33,255,256,65535,65536; integers at 2^7,2^8,2^16,2^32,2^63,2^64 boundaries; timestamps at the epoch, 2^32 s, "
+        "2^34 s, negative, int64-nanosecond limits; UTF-8 and raw bytes), each dimension swept around a base point + seeded random combinations + one genuinely signed vertex; real mapping "
+        "functions + real proto.Marshal/Unmarshal, real msgpack encode (vmihailenco) / decode (shamaton) for Vertex, Transaction, Melange, Balance; non-trivial = every round trip executed",
+        "field-wise equality of all signed fields, signed messages and verification result (monitor); model to_proto/of_proto on every case and enc_u64/enc_time/dec_* BYTE-EXACT against msgpack.Marshal output (coqc vm_compute)",
+        ["struct-level msgpack (map headers, str/bin framing) is validated by the round-trip monitor, not modelled byte by byte; the modelled primitives are uint64 and time",
+         "protobuf encoding itself (varints, length-delimited fields) is trusted library code; the model covers the mapping functions and the timestamp arithmetic"],
+        ("Model/Codec.vo",)),
 }
